@@ -30,3 +30,221 @@ Theorem joint_score_spec (ws : list Q) (rs : list (option Q)) (null : Q) :
      joint_score ws rs null == sumQ (fun wr => fst wr * match snd wr with Some x => x | None => 0 end) (combine ws rs)) /\
   (forallb (fun r => match r with Some _ => true | None => false end) rs = false -> joint_score ws rs null = null).
 Proof. unfold joint_score. split; intros H; rewrite H; reflexivity. Qed.
+
+(* ====================== C14: element-wise utilities decompose their metric ====================== *)
+
+Lemma classes_in labels l : In l (classes labels) <-> In l labels.
+Proof. unfold classes. apply in_sorted_distinct. Qed.
+
+(* accuracy: the picked entry of a prediction is the indicator of a correct prediction *)
+Lemma acc_picked_entry train yt j y p : In p train -> nth_error yt j = Some y ->
+  nthQ (nthL (acc_table train yt) (encode_label train p)) j = if Z.eqb p y then 1 else 0.
+Proof.
+  intros Hp Hj. unfold acc_table, nthL, encode_label.
+  assert (Hin : In p (classes train)) by (apply classes_in; exact Hp).
+  set (f := fun c => map (fun y0 => if Z.eqb c y0 then 1 else 0) yt).
+  rewrite (nth_indep _ [] (f 0%Z)) by (rewrite map_length; apply position_lt; exact Hin).
+  rewrite (map_nth f), position_nth by exact Hin. unfold f, nthQ.
+  apply nth_error_split in Hj as [l1 [l2 [-> <-]]]. rewrite map_app, app_nth2; rewrite map_length; [|lia].
+  rewrite Nat.sub_diag. reflexivity.
+Qed.
+
+Lemma sumQ_indicator_count {A} (pr : A -> bool) (l : list A) :
+  sumQ (fun a => if pr a then 1 else 0) l == qn (length (filter pr l)).
+Proof.
+  induction l as [|a l IH]; [reflexivity|]. rewrite sumQ_cons, IH. cbn [filter].
+  destruct (pr a); [cbn [length]; rewrite qn_S; ring|ring].
+Qed.
+
+Lemma accuracy_mean_aux train : forall (yp yt pre : list Z), length yp = length yt -> (forall p, In p yp -> In p train) ->
+  sumQ (fun jp : nat * Z => nthQ (nthL (acc_table train (pre ++ yt)) (encode_label train (snd jp))) (fst jp))
+       (combine (seq (length pre) (length yp)) yp)
+  == sumQ (fun yp0 : Z * Z => if Z.eqb (fst yp0) (snd yp0) then 1 else 0) (combine yt yp).
+Proof.
+  induction yp as [|p yp IH]; intros yt pre Hlen Hin; destruct yt as [|y yt]; try discriminate; [reflexivity|].
+  cbn [length seq combine]. rewrite !sumQ_cons. cbn [fst snd].
+  rewrite (acc_picked_entry train (pre ++ y :: yt) (length pre) y p); [|apply Hin; left; reflexivity|].
+  2:{ rewrite nth_error_app2 by lia. rewrite Nat.sub_diag. reflexivity. }
+  replace (pre ++ y :: yt) with ((pre ++ [y]) ++ yt) by (rewrite <- app_assoc; reflexivity).
+  replace (S (length pre)) with (length (pre ++ [y])) by (rewrite app_length; cbn; lia).
+  rewrite (IH yt (pre ++ [y])); [|cbn in Hlen; lia|intros q Hq; apply Hin; right; exact Hq].
+  rewrite Z.eqb_sym. reflexivity.
+Qed.
+
+Theorem accuracy_mean train yt yp : length yp = length yt -> (forall p, In p yp -> In p train) ->
+  sumQ (fun x => x) (picked (acc_table train yt) train yp) / qn (length yt) == accuracy yt yp.
+Proof.
+  intros Hlen Hin. unfold accuracy. apply Qmult_comp; [|reflexivity]. unfold picked. rewrite sumQ_map.
+  rewrite <- (sumQ_indicator_count (fun yp0 : Z * Z => Z.eqb (fst yp0) (snd yp0))).
+  exact (accuracy_mean_aux train yp yt [] Hlen Hin).
+Qed.
+
+(* accuracy null: the element-wise null vector is the indicator of a training class of minimal count, so its mean
+   is the lowest accuracy achievable by predicting one training class everywhere = null_score *)
+Lemma acc_null_class_spec ys : forall cs best,
+  match acc_null_class cs ys best with
+  | Some c => (In c cs \/ best = Some c) /\ (forall c', In c' cs -> (count_eq c ys <= count_eq c' ys)%nat) /\
+              (forall b, best = Some b -> (count_eq c ys <= count_eq b ys)%nat)
+  | None => cs = [] /\ best = None
+  end.
+Proof.
+  induction cs as [|c t IH]; intros best; cbn [acc_null_class].
+  - destruct best as [b|]; [|split; reflexivity]. split; [right; reflexivity|]. split; [intros c' []|intros b' E; injection E as ->; lia].
+  - destruct best as [b|].
+    + destruct (Nat.ltb_spec (count_eq c ys) (count_eq b ys)) as [Hlt|Hge].
+      * specialize (IH (Some c)). destruct (acc_null_class t ys (Some c)) as [r|]; [|destruct IH; discriminate].
+        destruct IH as [H1 [H2 H3]]. split; [destruct H1 as [H1|H1]; [left; right; exact H1|injection H1 as ->; left; left; reflexivity]|].
+        split; [intros c' [<-|Hc']; [apply H3; reflexivity|apply H2; exact Hc']|].
+        intros b' E. injection E as ->. specialize (H3 c eq_refl). lia.
+      * specialize (IH (Some b)). destruct (acc_null_class t ys (Some b)) as [r|]; [|destruct IH; discriminate].
+        destruct IH as [H1 [H2 H3]]. split; [destruct H1 as [H1|H1]; [left; right; exact H1|right; exact H1]|].
+        split; [intros c' [<-|Hc']; [specialize (H3 b eq_refl); lia|apply H2; exact Hc']|exact H3].
+    + specialize (IH (Some c)). destruct (acc_null_class t ys (Some c)) as [r|]; [|destruct IH; discriminate].
+      destruct IH as [H1 [H2 H3]]. split; [destruct H1 as [H1|H1]; [left; right; exact H1|injection H1 as ->; left; left; reflexivity]|].
+      split; [intros c' [<-|Hc']; [apply H3; reflexivity|apply H2; exact Hc']|intros b E; discriminate].
+Qed.
+
+Lemma qmin_list_spec : forall l d, l <> [] -> In (qmin_list l d) l /\ forall x, In x l -> qmin_list l d <= x.
+Proof.
+  induction l as [|a t IH]; intros d Hne; [contradiction|]. cbn [qmin_list]. destruct t as [|b t'].
+  - cbn [qmin_list]. rewrite (proj2 (Qle_bool_iff a a)) by apply Qle_refl. split; [left; reflexivity|intros x [<-|[]]; apply Qle_refl].
+  - destruct (IH a ltac:(discriminate)) as [Hin Hmin]. destruct (Qle_bool a (qmin_list (b :: t') a)) eqn:E.
+    + apply Qle_bool_iff in E. split; [left; reflexivity|]. intros x [<-|Hx]; [apply Qle_refl|].
+      apply (Qle_trans _ (qmin_list (b :: t') a)); [exact E|apply Hmin; exact Hx].
+    + assert (Hlt : qmin_list (b :: t') a < a). { apply Qnot_le_lt. intros Hc. apply Qle_bool_iff in Hc. congruence. }
+      split; [right; exact Hin|]. intros x [<-|Hx]; [apply Qlt_le_weak; exact Hlt|apply Hmin; exact Hx].
+Qed.
+
+Lemma sumQ_id_map {A} (f : A -> Q) l : sumQ (fun x => x) (map f l) = sumQ f l.
+Proof. exact (sumQ_map f (fun x => x) l). Qed.
+
+Lemma qn_le a b : (a <= b)%nat -> qn a <= qn b.
+Proof. intros H. unfold qn. rewrite <- Zle_Qle. lia. Qed.
+
+Theorem accuracy_null train yt : train <> [] -> yt <> [] ->
+  sumQ (fun x => x) (acc_null_vector train yt) / qn (length yt) == acc_null_score train yt /\
+  (forall c, In c train -> acc_null_score train yt <= acc_of_const c yt) /\
+  (exists c, In c train /\ acc_null_score train yt == acc_of_const c yt).
+Proof.
+  intros Htr Hyt. unfold acc_null_vector, acc_null_score.
+  assert (Hcs : classes train <> []).
+  { destruct train as [|a t]; [contradiction|]. intros E. assert (In a (classes (a :: t))) by (apply classes_in; left; reflexivity).
+    rewrite E in H. destruct H. }
+  pose proof (acc_null_class_spec yt (classes train) None) as Hs.
+  destruct (acc_null_class (classes train) yt None) as [c|]; [|destruct Hs as [E _]; contradiction].
+  destruct Hs as [[Hc|Hc] [Hmin _]]; [|discriminate].
+  destruct (classes train) as [|c0 t0] eqn:Ecl; [contradiction|].
+  assert (Hpos : 0 < qn (length yt)) by (apply qn_pos; destruct yt; [contradiction|cbn; lia]).
+  destruct (qmin_list_spec (map (fun c1 => acc_of_const c1 yt) (c0 :: t0)) 0 ltac:(discriminate)) as [Hin Hle].
+  set (m := qmin_list (map (fun c1 => acc_of_const c1 yt) (c0 :: t0)) 0) in *.
+  assert (Hvec : sumQ (fun x => x) (map (fun y => if Z.eqb c y then 1 else 0) yt) / qn (length yt) == acc_of_const c yt).
+  { rewrite sumQ_id_map. unfold acc_of_const, count_eq. rewrite (sumQ_indicator_count (Z.eqb c)). reflexivity. }
+  assert (Hm : m == acc_of_const c yt).
+  { apply Qle_antisym.
+    - apply Hle. apply (in_map (fun c1 => acc_of_const c1 yt)). exact Hc.
+    - apply in_map_iff in Hin as [c1 [E1 Hc1]]. rewrite <- E1. unfold acc_of_const.
+      apply Qmult_le_compat_r; [apply qn_le, Hmin; exact Hc1|]. apply Qlt_le_weak, Qinv_lt_0_compat; exact Hpos. }
+  split; [rewrite Hvec, Hm; reflexivity|]. split.
+  - intros c1 Hc1. apply Hle. apply (in_map (fun c2 => acc_of_const c2 yt)). rewrite <- Ecl. apply classes_in. exact Hc1.
+  - exists c. split; [apply classes_in; rewrite Ecl; exact Hc|exact Hm].
+Qed.
+
+(* ---------------- binary ROC-AUC ---------------- *)
+Definition binary (a b : Z) (ys : list Z) : Prop := a <> b /\ forall y, In y ys -> y = a \/ y = b.
+
+Lemma count_binary a b ys : binary a b ys -> (count_eq a ys + count_eq b ys = length ys)%nat.
+Proof.
+  intros [Hab H]. unfold count_eq. induction ys as [|y t IH]; [reflexivity|]. cbn [filter length].
+  assert (Ht : forall y0, In y0 t -> y0 = a \/ y0 = b) by (intros y0 Hy; apply H; right; exact Hy).
+  specialize (IH Ht). destruct (H y (or_introl eq_refl)) as [-> | ->].
+  - rewrite Z.eqb_refl. destruct (Z.eqb_spec b a) as [E|_]; [congruence|]. cbn [length]. lia.
+  - rewrite Z.eqb_refl. destruct (Z.eqb_spec a b) as [E|_]; [congruence|]. cbn [length]. lia.
+Qed.
+
+(* each entry of the table: [k = y] / (2 * #(validation points with label y)) *)
+Lemma auc_entry_binary a b ys k y : binary a b ys -> (0 < count_eq a ys)%nat -> (0 < count_eq b ys)%nat -> (y = a \/ y = b) ->
+  auc_entry [a; b] ys k y == (if Z.eqb k y then 1 else 0) / (2 * qn (count_eq y ys)).
+Proof.
+  intros Hbin Ha Hb Hy. pose proof (count_binary a b ys Hbin) as Hc. destruct Hbin as [Hab _].
+  unfold auc_entry. rewrite !sumQ_cons, sumQ_nil. cbn [length].
+  assert (Hpa : 0 < qn (count_eq a ys)) by (apply qn_pos; exact Ha).
+  assert (Hpb : 0 < qn (count_eq b ys)) by (apply qn_pos; exact Hb).
+  replace (length ys - count_eq a ys)%nat with (count_eq b ys) by lia.
+  replace (length ys - count_eq b ys)%nat with (count_eq a ys) by lia.
+  assert (H2 : qn 2 == 2) by reflexivity. rewrite H2.
+  destruct Hy as [->| ->].
+  - rewrite Z.eqb_refl. destruct (Z.eqb_spec b a) as [E|_]; [congruence|]. destruct (Z.eqb k a); field; lra.
+  - rewrite Z.eqb_refl. destruct (Z.eqb_spec a b) as [E|_]; [congruence|]. destruct (Z.eqb k b); field; lra.
+Qed.
+
+Lemma auc_picked_entry train yt j y p : In p train -> nth_error yt j = Some y ->
+  nthQ (nthL (auc_table train yt) (encode_label train p)) j = auc_entry (classes train) yt p y.
+Proof.
+  intros Hp Hj. unfold auc_table, nthL, encode_label.
+  assert (Hin : In p (classes train)) by (apply classes_in; exact Hp).
+  set (f := fun k => map (auc_entry (classes train) yt k) yt).
+  rewrite (nth_indep _ [] (f 0%Z)) by (rewrite map_length; apply position_lt; exact Hin).
+  rewrite (map_nth f), position_nth by exact Hin. unfold f, nthQ.
+  apply nth_error_split in Hj as [l1 [l2 [E <-]]]. rewrite E at 2. rewrite map_app, app_nth2; rewrite map_length; [|lia].
+  rewrite Nat.sub_diag. reflexivity.
+Qed.
+
+Lemma picked_auc_sum train : forall (yp yt pre : list Z), length yp = length yt -> (forall p, In p yp -> In p train) ->
+  sumQ (fun jp : nat * Z => nthQ (nthL (auc_table train (pre ++ yt)) (encode_label train (snd jp))) (fst jp))
+       (combine (seq (length pre) (length yp)) yp)
+  == sumQ (fun yp0 : Z * Z => auc_entry (classes train) (pre ++ yt) (snd yp0) (fst yp0)) (combine yt yp).
+Proof.
+  induction yp as [|p yp IH]; intros yt pre Hlen Hin; destruct yt as [|y yt]; try discriminate; [reflexivity|].
+  cbn [length seq combine]. rewrite !sumQ_cons. cbn [fst snd].
+  rewrite (auc_picked_entry train (pre ++ y :: yt) (length pre) y p); [|apply Hin; left; reflexivity|].
+  2:{ rewrite nth_error_app2 by lia. rewrite Nat.sub_diag. reflexivity. }
+  replace (pre ++ y :: yt) with ((pre ++ [y]) ++ yt) by (rewrite <- app_assoc; reflexivity).
+  replace (S (length pre)) with (length (pre ++ [y])) by (rewrite app_length; cbn; lia).
+  rewrite (IH yt (pre ++ [y])); [reflexivity|cbn in Hlen; lia|intros q Hq; apply Hin; right; exact Hq].
+Qed.
+
+Lemma sumQ_combine_in {A B} (f g : A * B -> Q) (l1 : list A) (l2 : list B) :
+  (forall x, In x (combine l1 l2) -> f x == g x) -> sumQ f (combine l1 l2) == sumQ g (combine l1 l2).
+Proof. apply sumQ_ext. Qed.
+
+(* the element-wise scores of any hard prediction vector sum to (TPR + TNR) / 2, the ROC-AUC of a hard prediction *)
+Theorem auc_sum train yt yp a b : classes train = [a; b] -> binary a b yt ->
+  (0 < count_eq a yt)%nat -> (0 < count_eq b yt)%nat -> length yp = length yt -> (forall p, In p yp -> p = a \/ p = b) ->
+  sumQ (fun x => x) (picked (auc_table train yt) train yp) == balanced_acc2 yt yp a b.
+Proof.
+  intros Hcl Hbin Ha Hb Hlen Hp. unfold picked. rewrite sumQ_map.
+  assert (Hin : forall p, In p yp -> In p train).
+  { intros p Hpp. apply classes_in. rewrite Hcl. destruct (Hp p Hpp) as [->| ->]; [left|right; left]; reflexivity. }
+  rewrite (picked_auc_sum train yp yt [] Hlen Hin). cbn [app]. rewrite Hcl.
+  pose proof Hbin as [Hab Hys].
+  assert (Hpa : 0 < qn (count_eq a yt)) by (apply qn_pos; exact Ha).
+  assert (Hpb : 0 < qn (count_eq b yt)) by (apply qn_pos; exact Hb).
+  rewrite (sumQ_ext _ (fun yp0 : Z * Z =>
+     (1 / (2 * qn (count_eq a yt))) * (if Z.eqb (fst yp0) a && Z.eqb (snd yp0) a then 1 else 0)
+     + (1 / (2 * qn (count_eq b yt))) * (if Z.eqb (fst yp0) b && Z.eqb (snd yp0) b then 1 else 0))).
+  - rewrite sumQ_plus, !sumQ_scale.
+    rewrite (sumQ_indicator_count (fun yp0 : Z * Z => Z.eqb (fst yp0) a && Z.eqb (snd yp0) a)).
+    rewrite (sumQ_indicator_count (fun yp0 : Z * Z => Z.eqb (fst yp0) b && Z.eqb (snd yp0) b)).
+    unfold balanced_acc2, rate. field. split; lra.
+  - intros [y p] Hyp. cbn [fst snd]. assert (Hy : y = a \/ y = b) by (apply Hys; apply in_combine_l in Hyp; exact Hyp).
+    rewrite (auc_entry_binary a b yt p y Hbin Ha Hb Hy).
+    destruct Hy as [->| ->].
+    + rewrite Z.eqb_refl. destruct (Z.eqb_spec a b) as [E|_]; [congruence|]. cbn [andb]. destruct (Z.eqb p a); field; lra.
+    + rewrite Z.eqb_refl. destruct (Z.eqb_spec b a) as [E|_]; [congruence|]. cbn [andb]. destruct (Z.eqb p b); field; lra.
+Qed.
+
+(* the element-wise null scores sum to 1/2, the ROC-AUC of any constant prediction *)
+Theorem auc_null_sum yt a b : classes yt = [a; b] -> binary a b yt -> (0 < count_eq a yt)%nat -> (0 < count_eq b yt)%nat ->
+  sumQ (fun x => x) (auc_null_vector yt) == 1 # 2.
+Proof.
+  intros Hcl Hbin Ha Hb. unfold auc_null_vector. rewrite Hcl.
+  assert (Hs : exists s, least_frequent [a; b] yt None = Some s /\ (s = a \/ s = b)).
+  { cbn [least_frequent]. destruct (Nat.ltb (count_eq b yt) (count_eq a yt)); eexists; split; try reflexivity; auto. }
+  destruct Hs as [s [-> Hsab]]. rewrite sumQ_id_map. pose proof Hbin as [Hab Hys].
+  assert (Hps : 0 < qn (count_eq s yt)) by (apply qn_pos; destruct Hsab as [->| ->]; assumption).
+  rewrite (sumQ_ext _ (fun y => (1 / (2 * qn (count_eq s yt))) * (if Z.eqb s y then 1 else 0))).
+  - rewrite sumQ_scale, (sumQ_indicator_count (Z.eqb s)). fold (count_eq s yt). field. lra.
+  - intros y Hy. rewrite (auc_entry_binary a b yt s y Hbin Ha Hb (Hys y Hy)).
+    destruct (Z.eqb_spec s y) as [->|Hne]; field; [lra|].
+    assert (0 < qn (count_eq y yt)) by (apply qn_pos; destruct (Hys y Hy) as [->| ->]; assumption). lra.
+Qed.
